@@ -110,8 +110,8 @@ impl Scenario for Socks {
 
     fn budget(&self, tier: Tier) -> u64 {
         match tier {
-            Tier::Quick => 10_000,
-            Tier::Thorough => 800_000,
+            Tier::Quick => 100_000,
+            Tier::Thorough => 10_000_000,
         }
     }
 
